@@ -476,9 +476,15 @@ class PyEngine:
 
     def slice(self, st, seq, lo, hi):
         if not isinstance(seq, SeqV):
-            raise Unsupported(f'slice of {seq!r}')
+            try:
+                seq = self.to_seq(st, seq)
+            except Unsupported:
+                raise Unsupported(f'slice of {seq!r}')
         # non-negative bounds only (as in the code under contract); clamped like Python
         hi = seq.len if hi is None else hi
+        h0 = z3.simplify(hi) if is_z3(hi) else hi
+        if is_z3(h0) and z3.is_int_value(h0) and h0.as_long() < 0:
+            hi = z3.If(seq.len + hi < 0, 0, seq.len + hi)        # Python negative slice bound
         lo_c = z3.If(lo > seq.len, seq.len, lo)
         hi_c = z3.If(hi > seq.len, seq.len, hi)
         ln = z3.If(hi_c > lo_c, hi_c - lo_c, 0)
@@ -492,6 +498,9 @@ class PyEngine:
             raise Unsupported('symbolic index into a tuple')
         if isinstance(base, SeqV):
             i = self.as_int(idx)
+            i0 = z3.simplify(i)
+            if z3.is_int_value(i0) and i0.as_long() < 0:
+                i = base.len + i            # Python negative index
             inr = z3.And(0 <= i, i < base.len)
             s_bad = st.clone()
             self.assume(s_bad, z3.Not(inr))
